@@ -92,17 +92,33 @@ def scan_forbidden():
     return bad
 
 
-def coq_build(timeout=1500):
-    """Translator + full .vo build under a lock.  Returns (ok, log, failed_files)."""
+PROPS_MARK = '=====PROPS-RECHECK====='
+
+
+def coq_build(timeout=3000, pid=None):
+    """Translator + full .vo build + re-check of Props/<pid>.v, all under ONE lock (so a concurrent run
+    against another tree cannot swap the regenerated Gen/*.v in between).
+    Returns (ok, log, failed_files); the Props re-check output is kept in coq_build.props_out."""
     os.makedirs(WORK, exist_ok=True)
-    tr = os.path.join(ROOT, 'translate', 'run.py')
-    tlog = ''
-    if os.path.exists(tr):
-        rc, tlog = sh([PY, tr], timeout=300, cwd=ROOT, env={'PYTHONPATH': REPO})
     write_coqproject()
-    cmd = ('flock %s/.buildlock sh -c "coq_makefile -f _CoqProject -o Makefile >/dev/null 2>&1 && '
-           'make -k -j%d COQC=\'timeout 600 coqc\' 2>&1"' % (WORK, NPROC))
-    rc, out = sh(cmd, timeout=timeout, cwd=COQ)
+    tr = os.path.join(ROOT, 'translate', 'run.py')
+    parts = []
+    if os.path.exists(tr):
+        parts.append('PYTHONPATH=%s VERIF_REPO=%s %s -W ignore %s 2>&1 | grep -v -i conda' % (REPO, REPO, PY, tr))
+    parts.append('coq_makefile -f _CoqProject -o Makefile >/dev/null 2>&1')
+    parts.append("make -k -j%d COQC='timeout 600 coqc' 2>&1" % NPROC)
+    if pid and os.path.exists(os.path.join(COQ, 'theories', 'Props', pid + '.v')):
+        parts.append('echo %s; timeout 900 coqc -Q theories BNP theories/Props/%s.v 2>&1' % (PROPS_MARK, pid))
+    script = os.path.join(WORK, 'build_%d.sh' % os.getpid())
+    open(script, 'w').write('cd %s\n' % COQ + '\n'.join(parts) + '\n')
+    rc, out = sh('flock %s/.buildlock sh %s' % (WORK, script), timeout=timeout, cwd=COQ)
+    try:
+        os.remove(script)
+    except OSError:
+        pass
+    coq_build.props_out = None
+    if PROPS_MARK in out:
+        out, coq_build.props_out = out.split(PROPS_MARK, 1)
     failed = []
     for m in re.finditer(r'\*\*\* \[[^\]]*?:\s*(theories/[\w/]+)\.vo\] Error', out):
         f = m.group(1) + '.v'
@@ -115,7 +131,7 @@ def coq_build(timeout=1500):
     for f in coq_files():
         if not os.path.exists(os.path.join(COQ, f[:-2] + '.vo')) and f not in failed:
             failed.append(f)
-    return (rc == 0 and not failed), tlog + out, failed
+    return (not failed), out, failed
 
 
 def coq_deps(vfile):
@@ -142,7 +158,11 @@ def check_props(pid):
     if not os.path.exists(os.path.join(COQ, f)):
         return dict(ok=False, theorems=[], log='missing ' + f, cmd='')
     cmd = 'coqc -Q theories BNP %s' % f
-    rc, out = sh('flock %s/.buildlock timeout 900 %s' % (WORK, cmd), timeout=4000, cwd=COQ)
+    if getattr(coq_build, 'props_out', None) is not None:
+        out = coq_build.props_out
+        rc = 1 if re.search(r'^Error|\nError', out) else 0
+    else:
+        rc, out = sh('flock %s/.buildlock timeout 900 %s' % (WORK, cmd), timeout=4000, cwd=COQ)
     names = re.findall(r'^\s*Theorem\s+([\w\']+)', open(os.path.join(COQ, f)).read(), re.M)
     # Print Assumptions output: either "Closed under the global context" or "Axioms:\n ..."
     blocks = re.split(r'(?=Closed under the global context|Axioms:)', out)
@@ -327,7 +347,7 @@ def run_check(pid, tier='quick', replay=None):
 
     # ---- 1. proofs
     bad = scan_forbidden()
-    ok, blog, failed = coq_build()
+    ok, blog, failed = coq_build(pid=pid)
     props = check_props(pid)
     deps = coq_deps('theories/Props/%s.v' % pid) + coq_deps('theories/Corr/%s.v' % getattr(mod, 'COQ_CORR', pid))
     failed_rel = [f for f in failed if f in deps]
